@@ -237,6 +237,10 @@ package libmem
 //@ assert[C06] in (*Allocator).zoneShrinkUsage at "a.zoneMove(zone|nodes, req)": req != nil && req.id in a.requests && a.requests[req.id] == req
 //@ assert[C07] in (*Allocator).zoneShrinkUsage at "a.zoneMove(zone|nodes, req)": forall j int :: rangeindex + 1 < j && j < len($t36) ==> $t36[j].id != req.id
 //@ assert[C07] in (*Allocator).zoneShrinkUsage at "a.zoneMove(zone|nodes, req)": req.id in a.users && a.users[req.id] == zone
+// C07 "a request with strict type preference is assigned only nodes of the requested types": overcommit resolution moves
+// a strict request only into a widened zone whose memory types (the zone's own plus those the expansion added) are exactly
+// the types it asked for.
+//@ assert[C07] in (*Allocator).zoneShrinkUsage at "a.zoneMove(zone|nodes, req)": !req.strict || req.types == (z.types | types)
 
 // What every step of a transaction preserves (old() = state at entry of the function the clause belongs to).
 //@ pure txpres(a *Allocator) bool = txn(a) && nocustom(a) && a.journal == old(a.journal) && a.requests == old(a.requests) &&
